@@ -67,6 +67,7 @@ type Solver struct {
 	Log       io.Writer // optional transcript
 	dead      bool
 	queries   int
+	stack     []*Term // path-condition terms currently asserted, one push level each
 }
 
 func NewSolver(kind SolverKind, tb *Table, timeoutMs int) *Solver {
@@ -104,6 +105,8 @@ func (s *Solver) start() {
 		s.send("(set-logic ALL)")
 	}
 	s.send("(set-option :print-success false)")
+	s.send("(set-option :global-declarations true)")
+	s.stack = nil
 }
 
 func (s *Solver) Close() {
@@ -259,6 +262,11 @@ func (s *Solver) readSexp(deadline time.Duration) (string, error) {
 // Check decides the conjunction of the assertions. With wantModel, a Sat answer
 // comes with values for every variable and UF application reachable from them.
 func (s *Solver) Check(assertions []*Term, wantModel bool) (Result, *Model) {
+	return s.CheckInc(assertions, 0, wantModel)
+}
+
+// CheckInc is Check where the first nBase assertions form a prefix that is kept asserted between calls.
+func (s *Solver) CheckInc(assertions []*Term, nBase int, wantModel bool) (Result, *Model) {
 	if s.dead {
 		s.start()
 	}
@@ -278,8 +286,21 @@ func (s *Solver) Check(assertions []*Term, wantModel bool) (Result, *Model) {
 	for _, a := range assertions {
 		s.define(a, &sb)
 	}
+	// incremental: the first nBase assertions are the path condition (stable prefix across queries)
+	k := 0
+	for k < len(s.stack) && k < nBase && s.stack[k] == assertions[k] {
+		k++
+	}
+	if len(s.stack) > k {
+		fmt.Fprintf(&sb, "(pop %d)\n", len(s.stack)-k)
+		s.stack = s.stack[:k]
+	}
+	for _, a := range assertions[k:nBase] {
+		sb.WriteString("(push 1)\n(assert " + a.Ref() + ")\n")
+		s.stack = append(s.stack, a)
+	}
 	sb.WriteString("(push 1)\n")
-	for _, a := range assertions {
+	for _, a := range assertions[nBase:] {
 		sb.WriteString("(assert " + a.Ref() + ")\n")
 	}
 	sb.WriteString("(check-sat)")
